@@ -543,6 +543,9 @@ func cmdCheck(args []string) int {
 			final := e.Exec(msc, harness.ExecOpts{Schedule: mo.Decisions, UseSched: useSched, KeepLog: true})
 			rp := &harness.Replay{Engine: en, Property: *prop, Seed: seed, Index: fv.Index, Scenario: raw,
 				Schedule: mo.Decisions, UseSched: useSched, Violation: *mv, LogHash: fmt.Sprintf("%016x", final.LogHash), Trace: tail(final.Trace, 400)}
+			if tx, ok := e.(harness.Texter); ok {
+				rp.Program = strings.Split(tx.Text(msc), "\n")
+			}
 			path := filepath.Join(outDir, fmt.Sprintf("%s-%s-seed%d-idx%d-%s.json", *prop, en, seed, fv.Index, sanitize(v.Class)))
 			if err := harness.WriteReplay(path, rp); err != nil {
 				fmt.Fprintln(os.Stderr, err)
